@@ -26,8 +26,8 @@ CHECKS = {
         "partial": "per-message transformation is proved for every world satisfying the codec/compressor laws; whole request streams on the re-encoding "
                    "path are proved to reach the backend as exactly the converted messages in order (any read sizes), and on the re-framing path "
                    "(client and backend with envelopes) as exactly the client's payloads under the backend's envelopes (any read sizes, any segmentation); in the response direction a well-formed stream of backend "
-                   "frames is proved to reach a streaming client as exactly its converted messages under the client's envelopes (re-encoding path); for the "
-                   "response direction on the re-framing path and for buffered clients whole-stream fidelity is checked against ground truth on fake codecs (raw/hexa/rev) and RLE compressors, not on real proto/json/gzip",
+                   "frames is proved to reach a streaming client as exactly its converted messages under the client's envelopes (re-encoding path) resp. as its untouched payloads under the client's envelopes (re-framing path); for "
+                   "buffered (unary/REST) clients, end-of-stream frames and write splits on the re-framing path whole-stream fidelity is checked against ground truth on fake codecs (raw/hexa/rev) and RLE compressors, not on real proto/json/gzip",
         "assumptions": E2E_ASSUME + ["WorldLaws (decode∘encode = id, decompress∘compress = id, compressed output non-empty) are hypotheses"],
     },
     "C02": {
